@@ -54,7 +54,7 @@ ASSUMPTIONS = [
 OUTSIDE = [
     "that GEOS' union / intersection / difference agree with point-wise membership, that Agg's point-in-path test agrees with GEOS, validity checking, results that are not single polygons, buffer / resample (GEOS, scipy splines)",
     "shapes beyond small convex polygons; that membership is preserved by an affine map of shape and point (a fact about GEOS / Agg, not about tdgl's code)",
-    "Device.translate of an existing mesh, probe points under rotate / scale",
+    "Device.translate of an existing mesh",
 ]
 FEASIBILITY = "all"
 TV_SAMPLES = {"quick": 2, "thorough": 2}
@@ -412,7 +412,18 @@ def body_device(H, case):
 
 
 def body_devtf(H, case):
-    dev, film, holes, terms = make_device(H, 1)
+    # probe points strictly inside the film and outside the hole (membership of the cell: assumed in the symbolic
+    # run, checked in every concrete run)
+    film0 = _box(H, "film", 0.0, 0.0, 10.0, 6.0)
+    hole0 = _box(H, "hole0", 1.0, 1.0, 3.0, 3.0)
+    Q = H.array2([[H.real(f"pp{j}x", lo=8.2 - 2.0 * j, hi=8.8 - 2.0 * j), H.real(f"pp{j}y", lo=0.3 + 4.0 * j, hi=0.7 + 4.0 * j)] for j in range(2)])
+    inF, inH = film0.contains_points(Q), hole0.contains_points(Q)
+    for j in range(2):
+        cell_facts(H, "film", K.at(inF, j), j, True)
+        cell_facts(H, "hole0", K.at(inH, j), j, False)
+    dev, film, holes, terms = make_device(H, 1, probes=Q)
+    psnap = [(K.at(dev.probe_points, j, 0), K.at(dev.probe_points, j, 1)) for j in range(2)]
+    parr = dev.probe_points
     snaps = [snapshot(P) for P in dev.polygons]
     if case.op == "translate":
         dx, dy = H.real("dx", lo=-50.0, hi=50.0), H.real("dy", lo=-50.0, hi=50.0)
@@ -436,6 +447,16 @@ def body_devtf(H, case):
         f = lambda x, y: (ox + fx * (x - ox), oy + fy * (y - oy))
         det_pos = sx > 0
     H.prove("a transformed device is a new device with the same length units", new is not dev and new.length_units == dev.length_units)
+    # probe points: the original keeps its array and values, the new device gets the images in an array of its own
+    H.prove("the original device keeps its probe-point array", dev.probe_points is parr)
+    now = [(K.at(dev.probe_points, j, 0), K.at(dev.probe_points, j, 1)) for j in range(2)]
+    H.prove("probe points of the original device are unchanged", all(same_term(H, a[0], b[0]) and same_term(H, a[1], b[1]) for a, b in zip(now, psnap)))
+    H.prove("the new device has probe points in an array of its own", new.probe_points is not None and not shares_memory(new.probe_points, parr))
+    if new.probe_points is not None:
+        for j in range(2):
+            ix, iy = f(*psnap[j])
+            H.prove_eq(f"probe point {j} of the new device is the image of the original one (x)", K.at(new.probe_points, j, 0), ix, scale=1.0, timeout=60)
+            H.prove_eq(f"probe point {j} of the new device is the image of the original one (y)", K.at(new.probe_points, j, 1), iy, scale=1.0, timeout=60)
     for a, sn in zip(dev.polygons, snaps):
         H.prove(f"{a.name} of the original device is unchanged", unchanged(H, a, sn))
     for a, b, sn in zip(dev.polygons, new.polygons, snaps):
